@@ -7,3 +7,8 @@ import PanderaModel.Props.C02
 #print axioms Pandera.C02.null_cells_exact
 #print axioms Pandera.C02.check_cells_exact
 #print axioms Pandera.C02.error_counts_sum
+#print axioms Pandera.C02.field_cells_wellformed
+#print axioms Pandera.C02.field_cells_exact
+#print axioms Pandera.C02.col?_some
+#print axioms Pandera.C02.frame_report_sound
+#print axioms Pandera.C02.frame_report_complete
